@@ -208,11 +208,18 @@ static void gen(plan_t *p, rng_t *r)
         if (rng_chance(r, 1, 10)) plan_op(p, c, "checkio", 1, 0L);
         for (int k = 0; k < nsend; k++) {
             int slot = 0;
-            if (rng_chance(r, 1, 12)) { o = plan_op(p, c, "dup", 2, 0L, 1L); if (rng_chance(r, 1, 6)) op_fault(o, FAULT(FC_OPEN, FO_EMFILE, 0)); slot = 1; }
+            int nbnow = nb, dupd = 0;
+            if (rng_chance(r, 1, 12)) { o = plan_op(p, c, "dup", 2, 0L, 1L); if (rng_chance(r, 1, 6)) op_fault(o, FAULT(FC_OPEN, FO_EMFILE, 0)); slot = 1; dupd = 1; }
+            if (slot && !nb && rng_chance(r, 1, 2)) {
+                /* non-blocking mode belongs to the open file, not to the object: switched on through the copy, it holds for the
+                   original too, which is then the one that sends (and meets EAGAIN) */
+                plan_op(p, c, "nbio", 2, 1L, 1L);
+                slot = 0; nbnow = 1; nb = 1;
+            }
             o = plan_op(p, c, "send", 1, (long)slot);
             make_payload(o, c * 40 + k * 7, rng_chance(r, 1, 30) ? 0 : (size_t)payload_sizes[rng_below(r, NPAY)]);
-            gen_faults(o, r, FC_WRITE, rng_chance(r, 1, 2) ? 3 : 8, nb, hard);
-            if (slot) plan_op(p, c, "del", 1, 1L);
+            gen_faults(o, r, FC_WRITE, rng_chance(r, 1, 2) ? 3 : 8, nbnow, hard);
+            if (dupd) plan_op(p, c, "del", 1, 1L);
         }
         if (rng_chance(r, 1, 8)) { o = plan_op(p, c, "recv", 1, 0L); gen_faults(o, r, FC_READ, 3, nb, 0); }
         if (rng_chance(r, 1, 5)) { o = plan_op(p, c, "close", 1, 0L); if (rng_chance(r, 1, 3)) op_fault(o, FAULT(FC_CLOSE, FO_EINTR, 0)); if (rng_chance(r, 1, 3)) plan_op(p, c, "close", 1, 0L); }
@@ -323,6 +330,7 @@ static void do_op(int t, op_t *o)
         char *txt;
         if (!so) return;
         fd = so->fd;
+        if (fd >= 0 && simfd_nonblocking(t, fd) && !SPIF_SOCKET_FLAGS_IS_SET(so, SPIF_SOCKET_FLAGS_NBIO)) probe_hit("sender_nonblocking_through_its_copy");
         cid = fd >= 0 ? simfd_conn_id(t, fd) : 0;
         role = fd >= 0 ? simfd_conn_role(t, fd) : 0;
         tx0 = fd >= 0 ? simfd_tx_total(t, fd) : 0;
